@@ -718,7 +718,8 @@ def run(ctx):
     ctx.assumptions += ["CPython 3.12 str.strip()/str.join semantics as modelled in C03/Lib.v (validated differentially)",
                         "extractors store slide/chapter numbers as modelled (pptx enumerate, epub spine counter)"]
     gen_tables(ctx)
-    ctx.prove("C03/Props.v", ["C03/ProofsX.vo"], expected=[
+    ctx.prove("C03/Props.v", ["C03/ProofsX.vo", "C03/ProofsM.vo"], expected=[
+        "C03_mbox_one_per_message",
         "C03_full_text_is_join", "C03_numbers_strict", "C03_numbers_never_repeat", "C03_numbers_are_positions",
         "C03_one_unit_per_source", "C03_units_partition_body_pdf", "C03_rtf_units_are_nonblank_pages",
         "C03_ppt_one_unit_per_slide_refuted", "C03_ppt_document_numbers", "C03_ppt_document_numbers_never_repeat",
